@@ -1,5 +1,258 @@
-From Symbolic Require Import Expr SymModel GenSymFacts.
+(** C12 -- Symbolic equations and Jacobian agree with the numeric model.
+
+    ONLY theorem statements (written out in full), each closed by [exact <lemma>] and followed by
+    [Print Assumptions].  The statements are about the executable model of
+      to_symbolic_model / SymbolicModel.jacobian          (SymModel.to_symbolic, SymModel.jacobian)
+      Simulator._initialise_integrator's Jacobian closure (SymModel.init_jac, SymModel.call_closure)
+      the coefficient tables of Model._create_cache       (SymModel.build_tables)
+    instantiated at [gen_sym_facts], the facts REGENERATED from /repo's source on every run.
+
+    SymPy enters as universally quantified functions with the stated hypotheses only:
+      fsym  = fn_to_sympy on one function (sound: property C06's subject; introduces no symbols),
+      sdiff = SymPy's differentiation (agrees in value with the verified formal derivative [D]),
+      fsem  = what CPython computes for a rate function (a function of the argument VALUES).
+    [Resolved fsem m env]: env gives every derived value and rate the value of its function at the
+    values of its arguments -- i.e. env is "a state and parameter setting" with all components
+    resolved (what property C01 proves the numeric model computes).  All theorems quantify over
+    ALL models, environments and states; numbers are exact rationals. *)
+From Coq Require Import QArith Qabs.
+From MxlBase Require Import ListX.
+From Symbolic Require Import Expr ExprProofs SymModel FnTab GenSymFacts SymProofs ClosureProofs Witness.
+Open Scope Q_scope.
+
 Theorem C12_facts_pinned :
-  gen_sym_facts = mkSymFacts OrdDependency SymVarsParsData StatFloatTimesRate DynListTimesRate EqsByVarNames JacEqsByVars LamTimeVarsPars ThirdNumericByName FallbackWarnAnyException.
+  gen_sym_facts = mkSymFacts OrdDependency SymVarsParsData StatFloatTimesRate DynCoefTimesRate EqsByVarNames JacEqsByVars LamTimeVarsPars ThirdNumericByName FallbackWarnAnyException TimeShifted.
 Proof. vm_compute. reflexivity. Qed.
 Print Assumptions C12_facts_pinned.
+
+(** (1) Whenever the conversion returns equations, they evaluate -- at every state and parameter
+    setting -- to the numeric right-hand side (the sums over the cache's coefficient tables the
+    numeric model uses), in variable order.  Holds for EVERY value of the facts: whichever order
+    the derived values are converted in, a returned result is never wrong. *)
+Theorem C12_eqs_equal_rhs :
+  forall (fsym : fnid -> list expr -> option expr) (fsem : fnid -> list Q -> Q),
+    (forall f es e env, fsym f es = Some e -> eval env e == fsem f (map (eval env) es)) ->
+    (forall f vs ws, Forall2 Qeq vs ws -> fsem f vs == fsem f ws) ->
+    forall (env : name -> Q) (F : sym_facts) (m : smodel) (eqs : list expr),
+      Resolved fsem m env ->
+      to_symbolic fsym F m = SymOk eqs ->
+      Forall2 (fun e v => eval env e == num_rhs fsem m env v) eqs (m_vars m).
+Proof. exact to_symbolic_sound. Qed.
+Print Assumptions C12_eqs_equal_rhs.
+
+(** (1') ... and to the right-hand side computed from the model's OWN stoichiometries with every
+    computed coefficient at its current value (Model.__call__), where the tables are what
+    Model._create_cache built at some earlier setting env0 -- PROVIDED every parameter-only computed
+    coefficient still has the value it had then.
+
+    FULL STATEMENT (false of the code, recorded finding frozen-computed-coefficient): the same
+    without the hypothesis on the computed coefficients.  Missing part: the value of a
+    parameter-only Derived coefficient is folded into the equations as a number. *)
+Theorem C12_every_parameter_setting_partial :
+  forall (fsym : fnid -> list expr -> option expr) (fsem : fnid -> list Q -> Q),
+    (forall f es e env, fsym f es = Some e -> eval env e == fsem f (map (eval env) es)) ->
+    (forall f vs ws, Forall2 Qeq vs ws -> fsem f vs == fsem f ws) ->
+    forall (env : name -> Q) (parnames : list name) (env0 : name -> Q)
+           (F : sym_facts) (m : smodel) (raw : raw_stoich) (eqs : list expr),
+      m_stoich m = fst (build_tables fsem parnames env0 raw) ->
+      m_dyn m = snd (build_tables fsem parnames env0 raw) ->
+      (forall rxn sto cpd f, In (rxn, sto) raw -> In (cpd, f) sto ->
+         match f with
+         | CNum _ => True
+         | CFun c => is_static parnames c = true ->
+                     fsem (c_fn c) (map env (c_args c)) == fsem (c_fn c) (map env0 (c_args c))
+         end) ->
+      Resolved fsem m env ->
+      to_symbolic fsym F m = SymOk eqs ->
+      Forall2 (fun e v => eval env e == raw_rhs fsem env raw v) eqs (m_vars m).
+Proof. exact every_parameter_setting_partial. Qed.
+Print Assumptions C12_every_parameter_setting_partial.
+
+Theorem C12_every_parameter_setting_refuted :
+  exists eqs, to_symbolic fsym_lib gen_sym_facts w2 = SymOk eqs /\
+    m_stoich w2 = fst (build_tables fsem_lib w2_parnames w2_env0 w2_raw) /\
+    m_dyn w2 = snd (build_tables fsem_lib w2_parnames w2_env0 w2_raw) /\
+    Resolved fsem_lib w2 w2_env /\
+    ~ Forall2 (fun e v => eval w2_env e == raw_rhs fsem_lib w2_env w2_raw v) eqs (m_vars w2).
+Proof.
+  exact (let (eqs, H) := w2_frozen in
+         ex_intro _ eqs (conj (proj1 H) (conj eq_refl (conj eq_refl (conj w2_resolved (proj2 H)))))).
+Qed.
+Print Assumptions C12_every_parameter_setting_refuted.
+
+(** (2) Jacobian layout: row i belongs to the equation of the i-th variable, column j is the
+    derivative by the j-th variable. *)
+Theorem C12_jacobian_layout :
+  forall (sdiff : name -> expr -> expr) (eqs : list expr) (vars : list name) i j e x,
+    nth_error eqs i = Some e -> nth_error vars j = Some x ->
+    exists row, nth_error (jacobian sdiff eqs vars) i = Some row /\ nth_error row j = Some (sdiff x e).
+Proof. exact jacobian_layout. Qed.
+Print Assumptions C12_jacobian_layout.
+
+(** (2') Every entry of the symbolic Jacobian IS the partial derivative of the numeric right-hand
+    side: moving the j-th variable by any rational h, |h| <= 1, and re-resolving the model changes
+    the i-th numeric derivative by h * J[i][j] up to B * h^2, one B for all such h. *)
+Theorem C12_jacobian_is_derivative :
+  forall (fsym : fnid -> list expr -> option expr) (fsem : fnid -> list Q -> Q) (sdiff : name -> expr -> expr),
+    (forall f es e env, fsym f es = Some e -> eval env e == fsem f (map (eval env) es)) ->
+    (forall f vs ws, Forall2 Qeq vs ws -> fsem f vs == fsem f ws) ->
+    (forall f es e, fsym f es = Some e -> forall n, In n (syms e) -> exists e', In e' es /\ In n (syms e')) ->
+    (forall x e env, eval env (sdiff x e) == eval env (D x e)) ->
+    forall (F : sym_facts) (m : smodel) (eqs : list expr) (env : name -> Q),
+      to_symbolic fsym F m = SymOk eqs -> Resolved fsem m env ->
+      forall i j vi xj, nth_error (m_vars m) i = Some vi -> nth_error (m_vars m) j = Some xj ->
+      exists row d, nth_error (jacobian sdiff eqs (m_vars m)) i = Some row /\ nth_error row j = Some d /\
+        exists B, 0 <= B /\
+          forall h env', Qabs h <= 1 -> Resolved fsem m env' ->
+            (forall n, In n (base_names m) -> env' n == upd env xj (env xj + h) n) ->
+            Qabs (num_rhs fsem m env' vi - num_rhs fsem m env vi - h * eval env d) <= B * (h * h).
+Proof. exact jacobian_is_derivative. Qed.
+Print Assumptions C12_jacobian_is_derivative.
+
+(** the formal derivative used above is THE derivative (exact Taylor identity, uniform remainder) *)
+Theorem C12_formal_derivative_correct :
+  forall x env e, exists B, 0 <= B /\
+    forall h, Qabs h <= 1 ->
+      Qabs (eval (upd env x (env x + h)) e - eval env e - h * eval env (D x e)) <= B * (h * h).
+Proof. exact D_is_derivative. Qed.
+Print Assumptions C12_formal_derivative_correct.
+
+(** (3) The simulator's Jacobian function binds (time, variable names, parameter names)
+    positionally to (t, x, the NUMERIC parameter values read from the model at call time): it
+    returns the Jacobian evaluated under exactly that assignment.  Current fact ThirdNumericByName. *)
+Theorem C12_closure_binding :
+  forall (m : smodel) (jac : list (list expr)) (vn pn : list name) (t : Q) (x : list Q),
+    pn = map fst (m_pars m) ->
+    NoDup (time_name :: vn ++ pn) ->
+    length x = length vn ->
+    (forall row e, In row jac -> In e row -> incl (syms e) (time_name :: vn ++ pn)) ->
+    call_closure gen_sym_facts m (JacFn jac vn pn) t x
+    = CMat (map (map (eval (bound_env t vn x (m_pars m)))) jac)
+    /\ bound_env t vn x (m_pars m) time_name = t
+    /\ (forall i v q, nth_error vn i = Some v -> nth_error x i = Some q -> bound_env t vn x (m_pars m) v = q)
+    /\ (forall k p, In (k, p) (m_pars m) -> bound_env t vn x (m_pars m) k = pval_num p).
+Proof.
+  exact (fun m jac vn pn t x Hpn Hnd Hlen Hsy =>
+    conj (closure_binding gen_sym_facts m jac vn pn t x eq_refl Hpn Hnd Hlen Hsy)
+   (conj (bound_env_time t vn x (m_pars m))
+   (conj (fun i v q => bound_env_var t vn x (m_pars m) i v q (eq_ind pn (fun l => NoDup (time_name :: vn ++ l)) Hnd _ Hpn) Hlen)
+         (fun k p => bound_env_par t vn x (m_pars m) k p (eq_ind pn (fun l => NoDup (time_name :: vn ++ l)) Hnd _ Hpn) Hlen)))).
+Qed.
+Print Assumptions C12_closure_binding.
+
+(** (3') composed: a simulator constructed on m0 (conversion succeeded), called later when the
+    model's parameter VALUES may have been updated (m): the function returns the symbolic Jacobian
+    of m0 evaluated at (t, x, the values in m now). *)
+Theorem C12_simulator_jacobian :
+  forall (fsym : fnid -> list expr -> option expr) (sdiff : name -> expr -> expr),
+    (forall f es e, fsym f es = Some e -> forall n, In n (syms e) -> exists e', In e' es /\ In n (syms e')) ->
+    (forall x e, incl (syms (sdiff x e)) (syms e)) ->
+    forall (m0 m : smodel) (eqs : list expr) (t : Q) (x : list Q),
+      to_symbolic fsym gen_sym_facts m0 = SymOk eqs ->
+      m_data m0 = [] ->
+      map fst (m_pars m) = map fst (m_pars m0) ->
+      NoDup (time_name :: m_vars m0 ++ map fst (m_pars m0)) ->
+      length x = length (m_vars m0) ->
+      call_closure gen_sym_facts m (init_jac fsym sdiff gen_sym_facts m0) t x =
+      CMat (map (map (eval (bound_env t (m_vars m0) x (m_pars m)))) (jacobian sdiff eqs (m_vars m0))).
+Proof. exact (fun fsym sdiff H1 H2 m0 m eqs t x => simulator_jacobian fsym sdiff H1 H2 gen_sym_facts m0 m eqs t x eq_refl). Qed.
+Print Assumptions C12_simulator_jacobian.
+
+(** (3'') the integrator calls jac_fn(t, x) with ITS time; after a variable override it restarts at
+    its own time 0 and the closure passes absolute time t + _time_shift (nothing is shifted on a
+    fresh simulator) *)
+Theorem C12_closure_absolute_time :
+  forall (m : smodel) (js : jac_state) (t : Q) (x : list Q),
+    call_closure_at gen_sym_facts m js None t x = call_closure gen_sym_facts m js (t + 0) x /\
+    forall s, call_closure_at gen_sym_facts m js (Some s) t x = call_closure gen_sym_facts m js (t + s) x.
+Proof. exact (fun m js t x => conj eq_refl (fun s => eq_refl)). Qed.
+Print Assumptions C12_closure_absolute_time.
+
+(** regression witness: with the pre-fix fact (ThirdParamRecords: model._parameters.values()) the
+    Jacobian function of a convertible model dies with TypeError as soon as an entry mentions a
+    parameter *)
+Theorem C12_closure_binding_old_refuted :
+  (exists eqs, to_symbolic fsym_lib facts_old_third w2 = SymOk eqs) /\
+  sf_third facts_old_third = ThirdParamRecords /\
+  call_closure facts_old_third w2 (init_jac fsym_lib D facts_old_third w2) 0 [1; 1 # 2] = CErr ErrType.
+Proof. exact (conj (proj1 w2_old_closure_typeerror) (conj eq_refl (proj2 w2_old_closure_typeerror))). Qed.
+Print Assumptions C12_closure_binding_old_refuted.
+
+(** (4) A convertible model converts whatever the declaration order of its derived values (and
+    reactions): [Convertible] reads the declarations through membership only, and [OrderOk] is
+    what property C02 proves of cache.order for every declaration order.  Current fact
+    OrdDependency. *)
+Theorem C12_any_declaration_order :
+  forall (fsym : fnid -> list expr -> option expr) (m : smodel),
+    (* Convertible, written out *)
+    (forall k c, In (k, c) (m_der m) -> forall a, In a (c_args c) -> In a (base_names m) \/ In a (map fst (m_der m))) ->
+    (forall k c, In (k, c) (m_rxn m) -> forall a, In a (c_args c) -> In a (base_names m) \/ In a (map fst (m_der m))) ->
+    (forall k c, In (k, c) (m_der m ++ m_rxn m) -> forall es, length es = length (c_args c) -> fsym (c_fn c) es <> None) ->
+    (forall cpd row r n, In (cpd, row) (m_stoich m) -> In (r, n) row -> In r (map fst (m_rxn m))) ->
+    (forall cpd row, In (cpd, row) (m_dyn m) -> row = []) ->     (* no state-dependent coefficient: those are covered by (1) only *)
+    (forall v, In v (m_vars m) -> exists row, In (v, row) (m_stoich m) /\ row <> []) ->
+    (* OrderOk, written out *)
+    (forall k, In k (map fst (m_der m)) -> In k (m_order m)) ->
+    (forall pre k post c, m_order m = pre ++ k :: post -> lookup k (m_der m) = Some c ->
+       forall a, In a (c_args c) -> In a (map fst (m_der m)) -> In a pre) ->
+    exists eqs, to_symbolic fsym gen_sym_facts m = SymOk eqs.
+Proof.
+  exact (fun fsym m H1 H2 H3 H4 H5 H6 O1 O2 =>
+    convertible_converts fsym m (Build_Convertible fsym m H1 H2 H3 H4 H5 H6) (conj O1 O2) gen_sym_facts eq_refl eq_refl).
+Qed.
+Print Assumptions C12_any_declaration_order.
+
+(** regression witness: with the pre-fix fact (OrdDeclaration) a convertible model whose derived
+    values are declared out of dependency order raised KeyError *)
+Theorem C12_any_declaration_order_old_refuted :
+  Convertible fsym_lib w1 /\ OrderOk w1 /\ sf_order facts_old_order = OrdDeclaration /\
+  to_symbolic fsym_lib facts_old_order w1 = SymErr ErrKey.
+Proof. exact (conj w1_convertible (conj w1_order_ok (conj eq_refl w1_old_keyerror))). Qed.
+Print Assumptions C12_any_declaration_order_old_refuted.
+
+(** (5) What cannot be converted raises rather than using wrong equations: by (1) EVERY returned
+    result is right, so the only other outcomes are the modelled exceptions (KeyError for a name that
+    is no symbol -- time, assignment-defined parameters, rates --, ValueError for a function that
+    does not translate).  State-dependent computed coefficients are converted by the repaired
+    statement (fact DynCoefTimesRate; covered by (1), instance in C12_nonvacuous); with the
+    pre-fix fact they were refused: *)
+Theorem C12_dynamic_coefficient_old_refused :
+  forall (fsym : fnid -> list expr -> option expr) (F : sym_facts) (m : smodel) cpd row,
+    sf_dyn F = DynListTimesRate ->
+    In (cpd, row) (m_dyn m) -> row <> [] -> forall eqs, to_symbolic fsym F m <> SymOk eqs.
+Proof. exact dyn_raises_old. Qed.
+Print Assumptions C12_dynamic_coefficient_old_refused.
+
+(** ... and in the simulator a refused conversion leaves the integrator WITHOUT a Jacobian (after
+    the warning) instead of using any equations. *)
+Theorem C12_fallback_without_jacobian :
+  forall (fsym : fnid -> list expr -> option expr) (sdiff : name -> expr -> expr) (F : sym_facts) (m : smodel) e,
+    to_symbolic fsym F m = SymErr e ->
+    init_jac fsym sdiff F m = JacNone e /\
+    forall m' t x, call_closure F m' (init_jac fsym sdiff F m) t x = CNoJac.
+Proof. exact fallback. Qed.
+Print Assumptions C12_fallback_without_jacobian.
+
+(** the hypotheses are satisfiable and the statements non-trivial: the concrete function table
+    meets everything assumed of SymPy; w1 (derived values declared out of order) is convertible,
+    resolved at a concrete environment, converts under the current facts to equations with the
+    values [-8; 8]; w3 has a STATE-dependent computed coefficient and converts to equations equal to
+    its right-hand side ([-6; 36]); the current closure evaluates w2's Jacobian to [[-2;0];[4;0]] *)
+Example C12_nonvacuous :
+  (forall f es e env, fsym_lib f es = Some e -> eval env e == fsem_lib f (map (eval env) es)) /\
+  (forall f vs ws, Forall2 Qeq vs ws -> fsem_lib f vs == fsem_lib f ws) /\
+  (forall f es e, fsym_lib f es = Some e -> forall n, In n (syms e) -> exists e', In e' es /\ In n (syms e')) /\
+  (forall x e, incl (syms (D x e)) (syms e)) /\
+  Convertible fsym_lib w1 /\ OrderOk w1 /\ Resolved fsem_lib w1 w1_env /\
+  (exists eqs, to_symbolic fsym_lib gen_sym_facts w1 = SymOk eqs /\ map (eval w1_env) eqs = [-8; 8]) /\
+  Resolved fsem_lib w3 w3_env /\
+  (m_dyn w3 = [(2%N, [(5%N, mkComp 24%N [1%N])])] /\
+   exists eqs, to_symbolic fsym_lib gen_sym_facts w3 = SymOk eqs /\
+     qlist_eqb (map (eval w3_env) eqs) (map (raw_rhs fsem_lib w3_env w3_raw) (m_vars w3)) = true /\
+     qlist_eqb (map (eval w3_env) eqs) [-6; 36] = true) /\
+  clo_obs_eqb (run_closure gen_sym_facts w2 0 [1; 1 # 2]) (ObsCloMat [[-2; 0]; [4; 0]]) = true.
+Proof.
+  exact (conj fsym_lib_sound (conj fsem_lib_proper (conj fsym_lib_syms (conj D_syms_incl
+        (conj w1_convertible (conj w1_order_ok (conj w1_resolved (conj w1_converts (conj w3_resolved (conj w3_converts w2_now_closure)))))))))).
+Qed.
+Print Assumptions C12_nonvacuous.
